@@ -82,7 +82,8 @@ class C03(Config):
     proof_targets = ["C03/Properties.vo"]
     corr_targets = ["C03/Corr.vo", "C03/Wf.vo"]
     audit_dirs = ["Lib", "Gen", "C03"]
-    header = ("From V.Lib Require Import Base Hex.\n"
+    header = ("From Coq Require Import Uint63.\n"
+              "From V.Lib Require Import Base Hex.\n"
               "From V.C03 Require Import HexLit Codec Model Spec Corr Wf.\n"
               "Local Open Scope N_scope.")
     bin = "c03"
